@@ -10,14 +10,21 @@ From Coq Require Import List Bool Arith NArith Lia.
 Import ListNotations.
 Open Scope N_scope.
 
+(* what the callback of a disconnect-notification request does when it is told *)
+Inductive wbeh :=
+| WPlain                (* nothing *)
+| WNested               (* asks to be told about disconnection again (nested teardown) *)
+| WSubmit.              (* submits a command *)
+
 Inductive qop :=
 | QSubmit               (* queue_command; ids are 0,1,2,... in submission order *)
 | QCancel (k : N)       (* the caller cancels the Deferred of command k *)
 | QReply                (* a complete 250 OK reply arrives *)
+| QWatch (b : wbeh)     (* when_disconnected(); requests are numbered 0,1,2,... as they are made *)
 | QLose.                (* connectionLost *)
 
 Inductive qout := QOk | QDisc | QCancelled.
-Inductive qev := QWrote (k : N) | QRes (k : N) (o : qout).
+Inductive qev := QWrote (k : N) | QRes (k : N) (o : qout) | QNote (w : N).
 
 Definition qout_eqb (a b : qout) : bool :=
   match a, b with QOk, QOk | QDisc, QDisc | QCancelled, QCancelled => true | _, _ => false end.
@@ -25,15 +32,19 @@ Definition qev_eqb (a b : qev) : bool :=
   match a, b with
   | QWrote x, QWrote y => x =? y
   | QRes x o, QRes y p => (x =? y) && qout_eqb o p
+  | QNote x, QNote y => x =? y
   | _, _ => false
   end.
 
 Fixpoint memN (k : N) (l : list N) : bool :=
   match l with [] => false | x :: l' => (x =? k) || memN k l' end.
 
-(* reference state: n submitted, w written, a answered (a <= w <= n, w <= a + 1), who is resolved *)
-Record rstate := { r_n : N; r_w : N; r_a : N; r_res : list N; r_lost : bool }.
-Definition r_init : rstate := {| r_n := 0; r_w := 0; r_a := 0; r_res := []; r_lost := false |}.
+(* reference state: n submitted, w written, a answered (a <= w <= n, w <= a + 1), who is resolved,
+   the notification requests not yet honoured, how many requests were made *)
+Record rstate := { r_n : N; r_w : N; r_a : N; r_res : list N; r_lost : bool;
+                   r_watch : list (N * wbeh); r_nw : N }.
+Definition r_init : rstate :=
+  {| r_n := 0; r_w := 0; r_a := 0; r_res := []; r_lost := false; r_watch := []; r_nw := 0 |}.
 
 (* ids lo, lo+1, ..., lo+len-1 *)
 Fixpoint seqN (lo : N) (len : nat) : list N :=
@@ -42,19 +53,38 @@ Fixpoint seqN (lo : N) (len : nat) : list N :=
 Definition unresolved (res : list N) (lo : N) (len : nat) : list N :=
   filter (fun k => negb (memN k res)) (seqN lo len).
 
+(* telling one request (numbered wid) at or after the loss: the note, then at once what its callback
+   causes - a nested request is told at once; a submitted command fails at once when nothing else is
+   outstanding ([inflight] = false), otherwise it joins the outstanding ones.
+   acc = (events so far, commands submitted, resolved, requests made) *)
+Definition tell (inflight : bool) (acc : list qev * N * list N * N) (wb : N * wbeh)
+  : list qev * N * list N * N :=
+  let '(ev, n, res, nw) := acc in
+  match snd wb with
+  | WPlain => (ev ++ [QNote (fst wb)], n, res, nw)
+  | WNested => (ev ++ [QNote (fst wb); QNote nw], n, res, nw + 1)
+  | WSubmit =>
+      if inflight then (ev ++ [QNote (fst wb)], n + 1, res, nw)
+      else (ev ++ [QNote (fst wb); QRes n QDisc], n + 1, n :: res, nw)
+  end.
+
 (* None = outside the envelope (a reply nobody is waiting for, anything after a second loss) *)
 Definition r_step (s : rstate) (o : qop) : option (rstate * list qev) :=
   match o with
   | QSubmit =>
       let k := r_n s in
       if r_lost s then
-        Some ({| r_n := k + 1; r_w := r_w s; r_a := r_a s; r_res := k :: r_res s; r_lost := true |}, [QRes k QDisc])
+        Some ({| r_n := k + 1; r_w := r_w s; r_a := r_a s; r_res := k :: r_res s; r_lost := true;
+                 r_watch := r_watch s; r_nw := r_nw s |}, [QRes k QDisc])
       else if r_w s =? r_a s then
-        Some ({| r_n := k + 1; r_w := r_w s + 1; r_a := r_a s; r_res := r_res s; r_lost := false |}, [QWrote k])
-      else Some ({| r_n := k + 1; r_w := r_w s; r_a := r_a s; r_res := r_res s; r_lost := false |}, [])
+        Some ({| r_n := k + 1; r_w := r_w s + 1; r_a := r_a s; r_res := r_res s; r_lost := false;
+                 r_watch := r_watch s; r_nw := r_nw s |}, [QWrote k])
+      else Some ({| r_n := k + 1; r_w := r_w s; r_a := r_a s; r_res := r_res s; r_lost := false;
+                    r_watch := r_watch s; r_nw := r_nw s |}, [])
   | QCancel k =>
       if (k <? r_n s) && negb (memN k (r_res s)) then
-        Some ({| r_n := r_n s; r_w := r_w s; r_a := r_a s; r_res := k :: r_res s; r_lost := r_lost s |},
+        Some ({| r_n := r_n s; r_w := r_w s; r_a := r_a s; r_res := k :: r_res s; r_lost := r_lost s;
+                 r_watch := r_watch s; r_nw := r_nw s |},
               [QRes k QCancelled])
       else Some (s, [])
   | QReply =>
@@ -63,13 +93,26 @@ Definition r_step (s : rstate) (o : qop) : option (rstate * list qev) :=
       let e1 := if memN c (r_res s) then [] else [QRes c QOk] in
       let more := r_w s <? r_n s in
       Some ({| r_n := r_n s; r_w := if more then r_w s + 1 else r_w s; r_a := c + 1;
-               r_res := c :: r_res s; r_lost := false |},
+               r_res := c :: r_res s; r_lost := false; r_watch := r_watch s; r_nw := r_nw s |},
             e1 ++ (if more then [QWrote (r_w s)] else []))
+  | QWatch b =>
+      if r_lost s then
+        (* already disconnected: told at once (nothing is outstanding any more) *)
+        let '(ev, n, res, nw) := tell false ([], r_n s, r_res s, r_nw s + 1) (r_nw s, b) in
+        Some ({| r_n := n; r_w := r_w s; r_a := r_a s; r_res := res; r_lost := true;
+                 r_watch := []; r_nw := nw |}, ev)
+      else
+        Some ({| r_n := r_n s; r_w := r_w s; r_a := r_a s; r_res := r_res s; r_lost := false;
+                 r_watch := r_watch s ++ [(r_nw s, b)]; r_nw := r_nw s + 1 |}, [])
   | QLose =>
       if r_lost s then None else
-      let out := unresolved (r_res s) (r_a s) (N.to_nat (r_n s - r_a s)) in
-      Some ({| r_n := r_n s; r_w := r_w s; r_a := r_a s; r_res := out ++ r_res s; r_lost := true |},
-            map (fun k => QRes k QDisc) out)
+      (* every request is told, in the order the requests were made; then every command still
+         outstanding - those submitted by the callbacks included - fails, in submission order *)
+      let '(ev, n, res, nw) := fold_left (tell (r_a s <? r_w s)) (r_watch s) ([], r_n s, r_res s, r_nw s) in
+      let out := unresolved res (r_a s) (N.to_nat (n - r_a s)) in
+      Some ({| r_n := n; r_w := r_w s; r_a := r_a s; r_res := out ++ res; r_lost := true;
+               r_watch := []; r_nw := nw |},
+            ev ++ map (fun k => QRes k QDisc) out)
   end.
 
 Fixpoint r_run (s : rstate) (ops : list qop) : option (list (list qev)) :=
